@@ -214,6 +214,13 @@ DEFECT_SETS_C02 = [
 ]
 
 
+C01_SERVE = [
+    ["R GET /{**}", "R GET /{a}/{b}", "R GET /a/b"],
+    ["R GET /u/{id}/@", "R GET /u/{m: **}", "R GET /{r: /[a-z]+/}"],
+    ["R GET /{m: **, capture: 2}/e", "R GET /o/?{p}", "R GET /"],
+]
+
+
 def routing_jobs(pid, tier, seed):
     rng = random.Random(seed * 7919 + (1 if pid == "C01" else 2))
     jobs = []
@@ -245,6 +252,10 @@ def routing_jobs(pid, tier, seed):
             continue
         add(rs, n - 1, "seeded")
         drawn += 1
+    if pid in ("C01", "C02"):
+        # the same decision at ServeHTTP level: routing is by the decoded URL.Path whatever the client's spelling (URL.RawPath)
+        for prog in C01_SERVE:
+            jobs.append(router_job(prog, 4 if tier == "quick" else 6, method="GET", raw=1, tag="serve"))
     return jobs
 
 
@@ -265,7 +276,7 @@ ROUTING_ASSUME = [
 
 for _pid in ("C01", "C02"):
     SPECS[_pid] = Spec(
-        _pid, ROUTE_FILES, (lambda p: (lambda tier, seed: routing_jobs(p, tier, seed)))(_pid),
+        _pid, ROUTE_FILES + ["route/oracle_api.go", "flamego/router.go"], (lambda p: (lambda tier, seed: routing_jobs(p, tier, seed)))(_pid),
         assumptions=ROUTING_ASSUME, bounds=routing_bounds,
         rule="one job per route set; within a job every request path up to the bound is covered by the solver: each explored "
              "path of the real Tree.Match is one equivalence class of request paths; a class is non-trivial when the "
@@ -277,10 +288,10 @@ for _pid in ("C01", "C02"):
 ROUTER_FILES = ["route/parse.go", "route/oracle.go", "route/oracle_api.go", "flamego/router.go"]
 
 
-def router_job(prog, n, method="GET", prefix="", hv=2, diff=0, twice=0, maporders=0, tag="", prior=0):
+def router_job(prog, n, method="GET", prefix="", hv=2, diff=0, twice=0, maporders=0, tag="", prior=0, raw=0):
     return {"pkg_short": "flamego", "setup": "VH_Router_setup", "body": "VH_Router_serve",
             "params": {"prog": "\n".join(prog), "n": n, "method": method, "prefix": prefix, "hv": hv, "diff": diff,
-                       "twice": twice, "maporders": maporders, "family": tag, "prior": prior}, "max_paths": 300000}
+                       "twice": twice, "maporders": maporders, "family": tag, "prior": prior, "raw": raw}, "max_paths": 300000}
 
 
 C07_PROGS = [
@@ -432,7 +443,7 @@ C10_PROGS = [
 def c10_jobs(tier, seed):
     jobs = []
     for prog, method, n in C10_PROGS:
-        jobs.append(router_job(prog, n + (0 if tier == "quick" else 2), method=method, hv=1, diff=1, tag="c10"))
+        jobs.append(router_job(prog, n + (0 if tier == "quick" else 2), method=method, hv=1, diff=1, twice=1, tag="c10"))
     rng = random.Random(seed * 131 + 3)
     menu = [("a", "s"), ("b", "s"), ("q", "s"), ("a", "s"), ("{x%d}", "p"), ("{m%d: **}", "m"), ("", "s")]
     drawn = 0
@@ -440,7 +451,7 @@ def c10_jobs(tier, seed):
         prog = random_program(rng, menu, headers=drawn % 3 == 0, max_routes=4)
         if prog:
             drawn += 1
-            jobs.append(router_job(prog, 4 if tier == "quick" else 6, method="?" if drawn % 2 else "GET", hv=1, diff=1, tag="c10-seeded"))
+            jobs.append(router_job(prog, 4 if tier == "quick" else 6, method="?" if drawn % 2 else "GET", hv=1, diff=1, twice=1, tag="c10-seeded"))
     return jobs
 
 
@@ -476,6 +487,10 @@ def c03_jobs(tier, seed):
     for mw, grp, rt, action, cancel, kinds, deep in shapes:
         jobs.append({"pkg_short": "flamego", "body": "VH_C03_chain", "max_paths": 900000,
                      "params": {"mw": mw, "grp": grp, "rt": rt, "action": action, "cancel": cancel, "kinds": kinds, "deep": deep}})
+    # HEAD requests (GET routes with AutoHead): a body write sends the status although no byte is forwarded
+    for mw, grp, rt, action, cancel, kinds, deep in (shapes[:2] if tier == "quick" else shapes[:8]):
+        jobs.append({"pkg_short": "flamego", "body": "VH_C03_chain", "max_paths": 900000,
+                     "params": {"mw": mw, "grp": grp, "rt": rt, "action": action, "cancel": cancel, "kinds": kinds, "deep": min(deep, 2), "method": "HEAD"}})
     jobs.append({"pkg_short": "flamego", "body": "VH_C03_step", "params": {"n": 4 if tier == "quick" else 8}, "max_paths": 200000})
     return jobs
 
@@ -529,7 +544,7 @@ def c15_jobs(tier, seed):
 
 
 SPECS["C15"] = Spec(
-    "C15", ["flamego/c13.go", "flamego/c15.go", "route/parse.go"], c15_jobs,
+    "C15", ["flamego/c13.go", "flamego/c03.go", "flamego/c15.go", "route/parse.go"], c15_jobs,
     assumptions=[
         "real Flame, Recovery() closure incl. its deferred function, LoggerInvoker, run/Next, inject, responseWriter; the interpreter implements defer/panic/recover and raises Go run-time panics itself (nil-map write, index out of range)",
         "stubs: logger (no-op), runtime.Caller (ok=false, so the stack text is empty), os.ReadFile, fmt.Sprintf (subset incl. %[n]s), http.StatusText (host)",
@@ -625,6 +640,8 @@ def c11_jobs(tier, seed):
     else:
         masks = [("111111010", 0), ("111100110", 1), ("001111001", 1), ("101000111", 1), ("010110101", 0), ("111111111", 0)]
     jobs = [{"pkg_short": "flamego", "body": "VH_C11_program", "params": {"mask": m, "lens": l}, "max_paths": 3000000} for m, l in masks]
+    jobs.append({"pkg_short": "flamego", "body": "VH_C11_program", "max_paths": 3000000,
+                 "params": {"mask": "0100001001" if tier == "quick" else "0110011001", "lens": 0}})
     # group prefixes that share characters with each other and with the route paths, an empty prefix, a bind in a prefix
     for g1, g2 in (("/gh", "/h"), ("/p", "/pp"), ("/g", ""), ("/{g}", "/hg")):
         jobs.append({"pkg_short": "flamego", "body": "VH_C11_program", "max_paths": 3000000,
@@ -641,7 +658,7 @@ SPECS["C11"] = Spec(
         "same chosen route / order / parameters for arbitrary requests then follows from C01-C03, decided on flat registrations (composition is an argument, not a query)",
         "a group function that panics is outside the claim",
     ],
-    bounds=lambda tier: {"nesting": 3, "statements": "9 template statements; per job a subset (mask) is symbolic, the others off", "handler_list_len": "0..2 (jobs with lens=1) else 1", "spare_capacity": "0 or 2 (symbolic)"},
+    bounds=lambda tier: {"nesting": 3, "statements": "10 template statements; per job a subset (mask) is symbolic, the others off", "handler_list_len": "0..2 (jobs with lens=1) else 1", "spare_capacity": "0 or 2 (symbolic)"},
     rule="every combination of statement guards, list lengths, capacity and AutoHead toggles of the template",
 )
 
@@ -824,12 +841,14 @@ SPECS["C06"] = Spec(
         "REDUCED CLAIM (DESIGN.md §4): totality and acceptance are not decided on participle's code (reflection-built parser, not executable by the interpreter). Decided instead:",
         "(a) rendering clause on the real code: Segment.String/Route.String executed from SSA on ASTs of 9 derivation shapes with every token's content symbolic (any bytes), against the canonical concatenation of the statement; stable under the sync.Once cache",
         "(b) acceptance on a translation of flamego's own declarative artefacts, re-extracted from source each run (go/ast): the lexer.Rules literal gives the character classes of Ident and Regex; the parser struct tags give a token-level grammar; the README EBNF is parsed into the same two levels. The solver (z3-new 5.1.0, regex theory; z3 4.8.12 second opinion) decides class equality and token-level language equality up to the stated length, modulo what the stateful lexer can emit (adjacent Ident tokens; ':' after a value without ',' - two forbidden patterns derived by reading the rules)",
+        "(b') character level, every byte string up to the bound: the lexer's state machine exactly as written in the source (states, rule order, first-match, greedy `+` tokens, push/pop actions on a stack of depth <= length+1) is composed with the Glushkov automaton of the struct-tag grammar and compared with the Glushkov automaton of the README <route> rule; one QF_BV query per length and direction over symbolic bytes (as indices into the coarsest partition of the byte alphabet respecting every character class in sight); unsat for all lengths = the two languages agree on every string up to the bound. The automata are also run concretely and must agree with the real parser / the README regular expression on every sample, and the solver's evaluation of concrete strings must agree with them (self-check), else the run is inconclusive",
         "(c) every witness, every class difference and >= 500 solver-drawn strings (inside and outside both languages, plus arbitrary bytes) are run through the real Parser.Parse: no panic; accepted iff in the README language; rendering equals the input with spacing normalised; the canonical form parses and renders to itself; the AST equals that of an independent recursive-descent parser. A faithful simulation of the stateful lexer (from the extracted rules) + token grammar must agree with the real parser on all of them, otherwise the run is inconclusive",
         "a defect of participle itself that the samples miss is invisible",
     ],
-    bounds=lambda tier: {"token_strings": "length <= %d over {i,g,/,?,{,},:,comma,blank}" % (10 if tier == "quick" else 14),
+    bounds=lambda tier: {"byte_strings_lexer_vs_README": "every byte string (bytes 0x01-0xff) of length <= %d" % (16 if tier == "quick" else 22),
+                         "token_strings": "length <= %d over {i,g,/,?,{,},:,comma,blank}" % (10 if tier == "quick" else 14),
                          "sample_strings": "length <= %d" % (10 if tier == "quick" else 12), "render_token_len": "0..%d bytes per token" % (2 if tier == "quick" else 3)},
-    rule="(a) one job per derivation shape; (b) four class queries and two token-language queries; (c) solver-drawn samples",
+    rule="(a) one job per derivation shape; (b) four class queries and two token-language queries; (b') two character-level queries per length; (c) solver-drawn samples",
 )
 
 
@@ -837,9 +856,13 @@ SPECS["C06"] = Spec(
 def c05_jobs(tier, seed):
     n = 3 if tier == "quick" else 5
     jobs = []
-    for prefix in ("/", "/s/", "/r/", "/m/", "/o", "/h", "/n/", "/g/c"):
+    for prefix in ("/", "/s/", "/r/", "/m/", "/o", "/h", "/n/", "/g/c", "/d/"):
         jobs.append({"pkg_short": "flamego", "setup": "VH_C05_setup", "body": "VH_C05_request",
                      "params": {"prefix": prefix, "n": n if prefix != "/" else n + 1}, "max_paths": 300000})
+    # history: an earlier request for the same path with other headers / another method
+    for prefix in ("/d/", "/h", "/s/", "/o"):
+        jobs.append({"pkg_short": "flamego", "setup": "VH_C05_setup", "body": "VH_C05_request",
+                     "params": {"prefix": prefix, "n": n - 1, "prior": 1}, "max_paths": 300000})
     return jobs
 
 
